@@ -1,5 +1,6 @@
-(* Props/C04.v — property C04 "timestamps are interpreted as the instant they denote" (PARTIAL claim:
-   the regex engine is not modelled): statements only; every proof is `exact <lemma>`.
+(* Props/C04.v — property C04 "timestamps are interpreted as the instant they denote" (PARTIAL claim: the
+   regex stage is a MODEL of the regex crate, tied by correspondence, and the universal statement covers
+   168 of 173 rows on the renderings their plan admits): statements only; every proof is `exact <lemma>`.
 
    Model/Normalise.v transcribes captures_to_buffer_bytes ([normalise]) and what chrono does for the
    DTP_* strftime strings ([parse_buffer]); Spec/NormaliseSpec.v says what the captured text DENOTES
@@ -7,10 +8,11 @@
    Spec/CalendarSpec.v).  tz_table / month_table / dt_table are REGENERATED from /repo on every run. *)
 From Coq Require Import String.
 From S4.Base Require Import Bytes.
-From S4.Model Require Import Calendar Normalise.
-From S4.Gen Require Import DatetimeTables.
+From S4.Model Require Import Calendar Normalise Regex RegexPlan RegexDt.
+From S4.Gen Require Import DatetimeTables RegexTables.
 From S4.Spec Require Import CalendarSpec TzRef NormaliseSpec.
 From S4.Proofs Require Import CalendarProofs CalendarExtra NormaliseTablesOk NormaliseProofs NormaliseDenotes.
+From S4.Proofs Require Import RegexProofs RegexSim RegexUniv RegexExamples RegexIso.
 Close Scope string_scope.
 Open Scope list_scope.
 Open Scope N_scope.
@@ -181,3 +183,173 @@ Example C04_normalise_denotes_example :
   model_instant month_table tz_table ex_dtfs ex_caps None 0 = Some 1707535799123000000%Z.
 Proof. exact normalise_denotes_example. Qed.
 Print Assumptions C04_normalise_denotes_example.
+
+(* ================================================================== THE REGEX STAGE (Model/Regex.v)
+   [search r text] models regex::bytes::Regex::new(pattern).captures(text): Unicode mode, leftmost-first.
+   rx_table (Gen/RegexTables.v) is REGENERATED from the compiled pattern strings on every run. *)
+
+(* totality: with the fuel the model uses (|text|+1) the search always reaches a verdict, for every
+   pattern of the AST and every text *)
+Theorem C04_regex_total : forall r text,
+  search r text = NoMatch \/ exists mt, search r text = Match mt.
+Proof. exact search_total. Qed.
+Print Assumptions C04_regex_total.
+
+Theorem C04_regex_row_total : forall row line, exists x, row_spans row line = Match x.
+Proof. exact row_spans_total. Qed.
+Print Assumptions C04_regex_row_total.
+
+(* soundness with respect to the declarative relation [matches] (Proofs/RegexProofs.M: concatenation, union,
+   iteration counts between the bounds, group = span of its sub-match, latest iteration wins); the match
+   lies inside the text and every group span inside the match *)
+Theorem C04_regex_sound : forall r text st s,
+  search r text = Match (st, s) ->
+  st <= c_pos s /\ c_pos s <= N.of_nat (length text) /\
+  matches r text st (c_pos s) (c_caps s) /\
+  (forall g a b, cap_lookup g (c_caps s) = Some (a, b) -> st <= a /\ a <= b /\ b <= c_pos s).
+Proof. exact search_sound. Qed.
+Print Assumptions C04_regex_sound.
+
+Example C04_regex_sound_example :
+  exists row st s, nth_rx 73 = Some row /\ search (rx_re row) ex_line = Match (st, s) /\
+                   st = 0 /\ c_pos s = 31 /\ cap_lookup 1 (c_caps s) = Some (0, 4) /\ cap_lookup 8 (c_caps s) = Some (27, 30).
+Proof. exact search_example. Qed.
+Print Assumptions C04_regex_sound_example.
+
+(* leftmost-first priority ("cut"): the first way an item matches on its own is the way a pattern uses it,
+   whenever the continuation succeeds there; and an item that cannot match makes the pattern fail *)
+Theorem C04_regex_first_way : forall A f r s s1 (k : cst -> res A),
+  cm cst f r s accept = Match s1 -> k s1 <> NoMatch -> cm A f r s k = k s1.
+Proof. exact first_way. Qed.
+Print Assumptions C04_regex_first_way.
+
+(* the SYMBOLIC run (characters = sets of bytes, unconstrained tail) is sound for every concretisation:
+   a plan that [chain_ok] accepts determines the concrete search on EVERY text of the plan *)
+Theorem C04_regex_plan_search : forall r p texts rest,
+  chain_ok true r p = true -> texts_ok p texts rest = true ->
+  search r (concat texts ++ rest) =
+    Match (0, mkC (N.of_nat (length (concat texts))) rest (final_caps p texts rest 0)).
+Proof. exact plan_search. Qed.
+Print Assumptions C04_regex_plan_search.
+
+(* table obligations on the regenerated ASTs *)
+Theorem C04_regex_no_nullable_star : no_nullable_star_b = true.
+Proof. exact no_nullable_star_ok. Qed.
+Print Assumptions C04_regex_no_nullable_star.
+
+Theorem C04_regex_names_in_range : names_in_range_b = true.
+Proof. exact names_in_range_ok. Qed.
+Print Assumptions C04_regex_names_in_range.
+
+Theorem C04_regex_tables_aligned : tables_aligned_b = true.
+Proof. exact tables_aligned_ok. Qed.
+Print Assumptions C04_regex_tables_aligned.
+
+(* the documented examples (`_test_cases`, regenerated): for each of them the model pipeline slice -> regex ->
+   named groups -> normalise -> parse yields the documented [dt_beg, dt_end) and the instant of the
+   documented fields; every row documents at least one *)
+Theorem C04_regex_documented_examples : forall ex, In ex rx_examples -> example_ok ex = true.
+Proof. exact examples_ok_all. Qed.
+Print Assumptions C04_regex_documented_examples.
+
+Theorem C04_regex_examples_every_row :
+  forallb (fun r => existsb (fun ex => ex_row ex =? rx_index r) rx_examples) rx_table = true.
+Proof. exact examples_every_row. Qed.
+Print Assumptions C04_regex_examples_every_row.
+
+(* WHICH rows the universal theorem covers: [row_covered] (plan generated from the AST, re-checked by the
+   symbolic engine, every named group pinned to one item, slice from 0) holds of every row of the
+   regenerated table except rows 65-69 (greedy `.+` in front of the timestamp) *)
+Theorem C04_regex_coverage :
+  forallb (fun r => row_covered r || existsb (N.eqb (rx_index r)) uncovered_rows) rx_table = true.
+Proof. exact coverage_ok. Qed.
+Print Assumptions C04_regex_coverage.
+
+(* FULL STATEMENT (not proved): for every row and every line whose timestamp is a rendering of the row's
+   notation, the regex captures exactly the written fields and bytes_to_regex_to_datetime returns the
+   denoted instant.  PROVED (_partial): every row except 65-69; lines whose slice is  t1 ++ ... ++ tn ++ rest
+   with one text per pattern item fitting the row's plan ([texts_ok]: every shape of the item's finite
+   language, `*`/`+` unrolled at most twice, ASCII members of classes plus U+2212, the timestamp starting
+   at slice offset 0, rest constrained only through the one-byte lookaheads the plan records).
+   Missing: rows 65-69; unanchored rows with text in front of the timestamp; longer blank runs. *)
+Theorem C04_regex_captures_partial : forall row texts rest tail,
+  In row rx_table -> ~ In (rx_index row) uncovered_rows ->
+  let line := (concat texts ++ rest) ++ tail in
+  slice_of row line = Some (concat texts ++ rest) ->
+  texts_ok (row_plan row) texts rest = true ->
+  row_spans row line =
+    Match (Some (spans_of (rx_ncap row)
+                          (0, mkC (N.of_nat (length (concat texts))) rest (final_caps (row_plan row) texts rest 0)))) /\
+  caps_of row line (spans_of (rx_ncap row)
+                             (0, mkC (N.of_nat (length (concat texts))) rest (final_caps (row_plan row) texts rest 0)))
+    = plan_caps row (row_plan row) texts.
+Proof. exact covered_captures. Qed.
+Print Assumptions C04_regex_captures_partial.
+
+(* ... composed with C04_normalise_denotes: the oracle `dated` replaced by a proved function *)
+Theorem C04_regex_dated_denotes_partial : forall row dr texts rest tail yo off t,
+  In row rx_table -> In dr dt_table -> rx_index row = r_index dr ->
+  ~ In (rx_index row) uncovered_rows ->
+  f_epoch (r_dtfs dr) = E_none -> fallback_ok off = true ->
+  let line := (concat texts ++ rest) ++ tail in
+  slice_of row line = Some (concat texts ++ rest) ->
+  texts_ok (row_plan row) texts rest = true ->
+  denoted_instant (r_dtfs dr) (plan_caps row (row_plan row) texts) yo off = Some t ->
+  option_map (fun x => fst (fst x)) (dated_model month_table tz_table row (r_dtfs dr) line yo off) = Some t.
+Proof. exact covered_dated_denotes. Qed.
+Print Assumptions C04_regex_dated_denotes_partial.
+
+(* the hypotheses are satisfiable: "2024-02-29 23:59:58.123456 PDT message", row 73 *)
+Example C04_regex_dated_denotes_example :
+  exists row dr,
+    nth_rx 73 = Some row /\ nth_dt 73 = Some dr /\
+    In row rx_table /\ In dr dt_table /\ rx_index row = r_index dr /\ ~ In (rx_index row) uncovered_rows /\
+    f_epoch (r_dtfs dr) = E_none /\ fallback_ok 3600 = true /\
+    slice_of row ex_line = Some (concat ex_texts ++ ex_rest) /\
+    texts_ok (row_plan row) ex_texts ex_rest = true /\
+    denoted_instant (r_dtfs dr) (plan_caps row (row_plan row) ex_texts) None 3600 = Some 1709276398123456000%Z /\
+    option_map (fun x => fst (fst x)) (dated_model month_table tz_table row (r_dtfs dr) ex_line None 3600)
+      = Some 1709276398123456000%Z.
+Proof. exact covered_example. Qed.
+Print Assumptions C04_regex_dated_denotes_example.
+
+(* ================================================================== one notation, with NUMBERS (full strength)
+   Row 79 of the regenerated table:  ^YEAR[ /\-]?MONTH[ /\-]?DAY[ T\-:]?HOUR[:]?MINUTE[:]?SECOND([[:^digit:]]|$)
+   For every year 1970..2099, every month, day of that month, hour, minute, second (iso_valid), every non-digit
+   ASCII byte c, every message text, every fill year and every fallback zone: the model of
+   bytes_to_regex_to_datetime applied to   "YYYY-MM-DD HH:MM:SS" ++ [c] ++ message   (the regex sees the first
+   50 bytes) returns the instant those numbers denote in the fallback zone (definitional day count).
+   Here the oracle `dated` IS a proved function: regex search (leftmost-first), captures, normalise, chrono parse. *)
+Theorem C04_regex_iso_row_denotes : forall y mo d h mi s c msg yo off,
+  1970 <= y -> y <= 2099 ->
+  iso_valid (Z.of_N y) (Z.of_N mo) (Z.of_N d) (Z.of_N h) (Z.of_N mi) (Z.of_N s) = true ->
+  nondigit_ascii c = true -> fallback_ok off = true ->
+  option_map (fun x => fst (fst x))
+             (dated_model month_table tz_table iso_rx iso_d ((iso_head y mo d h mi s ++ [c]) ++ msg) yo off)
+  = Some (spec_instant (Z.of_N y) (Z.of_N mo) (Z.of_N d) (Z.of_N h) (Z.of_N mi) (Z.of_N s) 0 off).
+Proof. exact iso_row_denotes. Qed.
+Print Assumptions C04_regex_iso_row_denotes.
+
+Example C04_regex_iso_row_example :
+  iso_valid 2024 2 29 23 59 59 = true /\ nondigit_ascii 32 = true /\ fallback_ok (-12600) = true /\
+  option_map (fun x => fst (fst x))
+             (dated_model month_table tz_table iso_rx iso_d (s2b "2024-02-29 23:59:59 up 3 days") None (-12600))
+  = Some 1709263799000000000%Z.
+Proof. exact iso_row_example. Qed.
+Print Assumptions C04_regex_iso_row_example.
+
+(* ================================================================== pattern competition (block-zero analysis
+   keeps the row with most dated lines, earliest index among equals): "for a file whose dated lines are all
+   renderings of ONE covered row, no earlier row dates all of them with a different instant" is REFUTED for
+   the current table — inside the family of C04_regex_iso_row_denotes: the earlier row 74 (same notation +
+   fraction) reads "2024-02-29 23:59:59.5 x" half a second later than row 79.  That direction (earlier row
+   MORE specific) is benign; the harmful direction is recorded by the known findings F13, F14, F16 with
+   witnesses on the real binary.  No universal non-competition statement is claimed. *)
+Theorem C04_regex_competition_refuted :
+  exists (r' r : N) (line : bytes),
+    r' < r /\ r = 79 /\
+    line = (iso_head 2024 2 29 23 59 59 ++ [46]) ++ s2b "5 x" /\ nondigit_ascii 46 = true /\
+    dated_by r line None 0 = Some 1709251199000000000%Z /\
+    dated_by r' line None 0 = Some 1709251199500000000%Z.
+Proof. exact competition_refuted. Qed.
+Print Assumptions C04_regex_competition_refuted.
